@@ -16,8 +16,8 @@ def tree_T0(w, upc):
 def tree_T1(w, upc):
     """the suite's shape"""
     return [f('README.TXT', [w[0]], min(3, upc)), f('EMPTY.DAT'),
-            d('TEST', [w[1]], [f('TEST.DAT', [w[2], w[3]], upc + 1)]),
-            f('HIWORD.DAT', [w[4]], 1, hi16=1)], 5
+            d('TEST', [w[1]], [f('TEST.DAT', [w[2], w[3]], upc + 1), f('HIWORD2.DAT', [w[5]], 1, hi16=3)]),
+            f('HIWORD.DAT', [w[4]], 1, hi16=1)], 6
 
 def tree_T2(w, upc, bpc, big_dir=True):
     """rich tree: label, long-name run, fragmented high->low chain, deleted slots, read-only file,
@@ -64,6 +64,8 @@ def geom(name, tree='T1', nfree=6, window_mid=False, bounds=None, info=None):
         'G32t': dict(fat32=True, clusters=65600, bpc=2, nfats=4, lba=8, slot=0, ptype=0x0C, reserved=32),
         # a tight reserved region: backup boot sector at 6, so that "backup + information sector" is the first FAT block
         'G32r': dict(fat32=True, clusters=65600, bpc=1, nfats=2, lba=8, slot=0, ptype=0x0C, reserved=7, fsinfo=1),
+        # the information sector behind the backup boot sector (6), near the end of the reserved region
+        'G32s': dict(fat32=True, clusters=65600, bpc=2, nfats=2, lba=8, slot=0, ptype=0x0C, reserved=12, fsinfo=9),
     }[name]
     v = dict(P)
     # volume serial numbers: any 32 bits (on FAT16 they sit where FAT32 keeps its FAT-mirroring flags)
@@ -203,6 +205,10 @@ def scripted(big=False):
             O('open_file', d='d0', name='HIWORD.DAT', mode='Append', as_='fh'), O('write', f='fh', n=upc + 1), O('close_file', f='fh'),
             O('open_file', d='d0', name='HIWORD.DAT', mode='Truncate', as_='fh2'), O('write', f='fh2', n=1), O('close_file', f='fh2'),
             O('delete', d='d0', name='HIWORD.DAT'),
+            # the same inside a sub-directory (lookups there take another path than in the FAT16 root)
+            O('open_dir', d='d0', name='TEST', as_='dt'), O('find', d='dt', name='HIWORD2.DAT'),
+            O('open_file', d='dt', name='HIWORD2.DAT', mode='Append', as_='fh3'), O('write', f='fh3', n=upc + 1), O('close_file', f='fh3'),
+            O('open_file', d='dt', name='HIWORD2.DAT', mode='Truncate', as_='fh4'), O('close_file', f='fh4'), O('delete', d='dt', name='HIWORD2.DAT'), O('close_dir', d='dt'),
         ] + epilogue()
         add('S1-' + gname, img, ops, upc, log=(gname in ('G16a', 'G32b', 'G16e')))     # (some with a logger at trace level installed)
 
@@ -246,7 +252,7 @@ def scripted(big=False):
         add('S2-' + gname, img, ops, upc)
 
     # S3: fill to exactly full and back, twice; delete of multi-cluster files; truncate 1/2/many
-    for gname, nfree in [('G16a', 4), ('G16b', 4), ('G32a', 5), ('G32b', 4), ('G16c', 3), ('G16g', 3), ('G32c', 3), ('G16e', 6), ('G16t', 3), ('G32t', 3), ('G32r', 4)]:
+    for gname, nfree in [('G16a', 4), ('G16b', 4), ('G32a', 5), ('G32b', 4), ('G16c', 3), ('G16g', 3), ('G32c', 3), ('G16e', 6), ('G16t', 3), ('G32t', 3), ('G32r', 4), ('G32s', 4)]:
         img = image_of(gname, tree='T0', nfree=nfree, info=dict(info_free='unknown') if gname == 'G32b' else None)
         upc = img[1]
         ops = prologue()
@@ -295,6 +301,9 @@ def scripted(big=False):
         # (the directory table is full: change_dir needs a free slot for the moment both directories are open)
         ops += [O('change_dir', d='r0', name='README.TXT'), O('iterate', d='r0'), O('change_dir', d='r0', name='TEST'), O('iterate', d='r0')]
         ops += [O('open_file', d='r0', name='F%d.TXT' % i, mode='Create', as_='f%d' % i) for i in range(F + 1)]
+        # (the file table is full: a truncating or creating open is refused before it touches anything)
+        ops += [O('open_file', d='r0', name='README.TXT', mode='Truncate', as_='ft'), O('open_file', d='r0', name='README.TXT', mode='CreateOrTruncate', as_='ft2'),
+                O('open_file', d='r0', name='EXTRA.TXT', mode='CreateOrAppend', as_='ft3'), O('find', d='r0', name='README.TXT'), O('find', d='r0', name='EXTRA.TXT')]
         ops += [O('iterate', d='r0', reent=True), O('iterate_lfn', d='r0', reent=True, buf=64), O('has_open')]
         ops += [O('mkdir', d='r0', name='MK')]
         # close in first / middle / last order, then stale uses of every handle-taking op
@@ -303,7 +312,8 @@ def scripted(big=False):
             order = [1, 0] + list(range(2, F))
         for i in order:
             ops += [O('close_file', f='f%d' % i)]
-        ops += [O('read', f='f0', n=1), O('write', f='f0', n=1), O('flush', f='f0'), O('close_file', f='f0'), O('seek_start', f='f0', u=0),
+        ops += [O('read', f='f0', n=0), O('write', f='f0', n=0), O('read', f='f0', n=0, api='eio'), O('write', f='f0', n=0, api='raii'),
+                O('read', f='f0', n=1), O('write', f='f0', n=1), O('flush', f='f0'), O('close_file', f='f0'), O('seek_start', f='f0', u=0),
                 O('seek_cur', f='f0', u=0), O('seek_end', f='f0', u=0), O('length', f='f0'), O('offset', f='f0'), O('eof', f='f0')]
         ops += [O('open_file', d='r0', name='F0.TXT', mode='ReadOnly', as_='g0'), O('open_file', d='r0', name='F0.TXT', mode='ReadOnly', as_='g1'),
                 O('delete', d='r0', name='F0.TXT'), O('close_file', f='g0'), O('delete', d='r0', name='F0.TXT')]
@@ -688,6 +698,15 @@ def scripted(big=False):
                             O('open_file', d='d0', name='LAST.DAT', mode='CreateOrTruncate', as_='f3'), O('close_file', f='f3'),
                             O('delete', d='d0', name='LAST.DAT'), O('delete', d='d0', name='FILL.BIN'), O('delete', d='d0', name='PREALLOC.DAT'),
                             O('open_file', d='d0', name='ALL.BIN', mode='Create', as_='f4'), O('write', f='f4', n=7 * upc), O('write', f='f4', n=1), O('close_file', f='f4')] + epilogue()
+        if v['fat32']:
+            # the reserved top four bits of FAT32 entries are somebody else's: set in the chains that get released here
+            v['hi'] = {str(c): (1 + c % 15) for c in fr}
+        # whole blocks of zero bytes written over live data (and read back after the cache has moved on)
+        upb = len(bounds)
+        zops = [O('open_file', d='d0', name='Z.BIN', mode='Create', as_='fz'), O('write', f='fz', n=upc), O('seek_start', f='fz', u=0), O('write', f='fz', n=upb, zero=True),
+                O('iterate', d='d0'), O('seek_start', f='fz', u=0), O('read', f='fz', n=upc), O('seek_start', f='fz', u=0), O('write', f='fz', n=upc, zero=True), O('close_file', f='fz'),
+                O('open_file', d='d0', name='Z.BIN', mode='ReadOnly', as_='fz2'), O('read', f='fz2', n=upc), O('close_file', f='fz2'), O('delete', d='d0', name='Z.BIN')]
+        ops = ops[:2] + zops + ops[2:]
         add('S28-' + gname, (dict(vols=[v]), upc, bounds), ops, upc)
 
     # S29: "." opened on a root while the open-directory table and the open-volume table are not aligned
@@ -697,6 +716,16 @@ def scripted(big=False):
            O('iterate', d='a'), O('iterate', d='b'), O('close_dir', d='a'), O('close_volume', v='v0'), O('close_dir', d='b'), O('close_volume', v='v1'),
            O('open_dir', d='ad', name='.', as_='ad2'), O('iterate', d='ad2'), O('close_dir', d='ad2'), O('close_dir', d='ad'), O('close_volume', v='v0'), O('close_volume', v='v1'), O('remount')]
     add('S29-multi', img, ops, img[1], lim=(4, 4, 4) if False else (8, 8, 4), log=True)
+
+    # S30: a new directory on clusters of several blocks filled entry by entry (each block boundary inside the cluster is crossed),
+    # a crash mount after every single device write
+    for gname in ['G16c', 'G32f']:
+        img = image_of(gname, tree='T0', nfree=4)
+        ops = prologue() + [O('mkdir', d='d0', name='FILLD'), O('open_dir', d='d0', name='FILLD', as_='d1')]
+        for i in range(19):
+            ops += [O('open_file', d='d1', name='E%02d.TXT' % i, mode='Create', as_='f0'), O('close_file', f='f0')]
+        ops += [O('iterate', d='d1'), O('close_dir', d='d1')] + epilogue()
+        add('S30-' + gname, img, ops, img[1], crashall=True)
 
     # S7: several volumes at once
     img = image_multi()
@@ -965,7 +994,7 @@ def lfn_histories(seed, quick):
         v, upc, bounds = geom('G16a', tree='T0', nfree=2, bounds=[0])
         v['root_entries'] = 512
         v['root'] = root
-        ops = prologue() + [O('iterate_lfn', d='d0', buf=780), O('iterate_lfn', d='d0', buf=rng.choice([0, 3, 5, 8, 20])), O('iterate', d='d0'),
+        ops = prologue() + [O('iterate_lfn', d='d0', buf=780), O('iterate_lfn', d='d0', buf=780, prepush=True), O('iterate_lfn', d='d0', buf=rng.choice([0, 3, 5, 8, 20])), O('iterate', d='d0'),
                             O('find', d='d0', name=root[-1]['name'][:8].strip() + '.' + root[-1]['name'][8:].strip())] + epilogue()[:2]
         fix_slot(dict(vols=[v]), ops)
         H.append(dict(id='L%d' % k, src='lfn', image=dict(vols=[v]), bounds=bounds, limits=[4, 4, 1], ops=ops, chk='listing'))
@@ -1084,7 +1113,7 @@ def fault_histories(seed, quick):
         tail += [O('close_volume', v='v0'), O('close_volume', v='v0'), O('remount')]
         H.append(dict(id=hid, src='fault', image=image, bounds=bounds, limits=list(lim), ops=ops + tail, fault_enum=dict(cap=cap, multi=12 if quick else 400)))
 
-    for gname in (['G16a', 'G32a', 'G16b'] if quick else ['G16a', 'G32a', 'G16c', 'G32b', 'G16b', 'G16t']):
+    for gname in (['G16a', 'G32a', 'G16b', 'G16t'] if quick else ['G16a', 'G32a', 'G16c', 'G32b', 'G16b', 'G16t']):
         # (G16b, G32b: a single FAT; G16t: three of them)
         # read-only walks over a multi-cluster directory (FAT reads inside the walk), each call twice (retry)
         img = image_of(gname, tree='T2', nfree=4)
